@@ -5,6 +5,7 @@ import ZbossModel.Rx
 import ZbossModel.Link
 import ZbossModel.Dispatch
 import ZbossModel.OpsCodec
+import ZbossModel.OpsCStruct
 /-! Dispatch of line-protocol operations to the executable model. -/
 namespace Zboss.Ops
 open Zboss Zboss.Crc
@@ -203,6 +204,9 @@ def handle : List String → String
           | none =>
             match OpsCodec.handle toks with
             | some r => r
-            | none => "bad-op"
+            | none =>
+              match OpsCStruct.handle toks with
+              | some r => r
+              | none => "bad-op"
 
 end Zboss.Ops
